@@ -30,6 +30,8 @@ f(name='Observation_from', file=OB, header='const PointID& from() const',
   csig='PointID Observation_from(const struct Observation* self)', members=OBM)
 f(name='Observation_to', file=OB, header='const PointID& to() const',
   csig='PointID Observation_to(const struct Observation* self)', members=OBM)
+f(name='Angle_fs', file=OB, header='const PointID& fs() const',
+  csig='PointID Angle_fs(const struct Observation* self)', members=OBM + ['fs_'])
 f(name='Observation_reduction', file=OB, header='double reduction() const',
   csig='double Observation_reduction(const struct Observation* self)', members=OBM)
 f(name='Observation_value', file=OB, header='double value() const',
@@ -58,15 +60,28 @@ for t in TYPES:
     hdr = 'void visit(%s* obs)' % t if t in NAMED else 'void visit(%s* )' % t
     f(name='TAV_visit_' + t, file=NET, header=hdr,
       csig='void TAV_visit_%s(struct TAV* self, struct Observation* obs)' % t, members=TAVM, ret='',
-      rules=([['b\\(indm\\)\\s*\\*\\s*d0\\s*/\\s*\\(\\s*10\\s*\\*\\s*R2G\\s*\\)', 'gv_fdiv(gv_fmul(b(indm), d0), 10*R2G)', 0]] if t == 'Angle' else [])
-      + [['(?<![\\w.>])check\\(', 'TAV_check(self, ', 1]])
+      rules=[['(?<![\\w.>])check\\(', 'TAV_check(self, ', 1]])
 
 f(name='LocalNetwork_test_abs_term', file=NET, header='double LocalNetwork::test_abs_term(int indm)',
   csig='double LocalNetwork_test_abs_term(struct LocalNetwork* self, int indm)', members=NETM, ret='0',
   rules=[
       ['Observation\\*\\s+m\\s*=\\s*revised_obs_\\[([^\\]]*)\\]\\s*;', 'struct Observation* m = *gv_vec_at(&revised_obs_, \\1);', 1],
-      ['const\\s+LocalPoint&\\s+(\\w+)\\s*=\\s*PD\\[m->(from|to)\\(\\)\\]\\s*;',
-       'const struct LocalPoint* const \\1__p = PointData_at(&PD, Observation_\\2(m));', 2],
+      # std::hypot(p - q, r - s): the stub gets the four coordinates (tagged operation)
+      ['std::hypot\\(\\s*([\\w>.-]+\\(\\))\\s*-\\s*([\\w>.-]+\\(\\))\\s*,\\s*([\\w>.-]+\\(\\))\\s*-\\s*([\\w>.-]+\\(\\))\\s*\\)', 'abs_hypot_d(\\1, \\2, \\3, \\4)', 2],
+      ['const\\s+LocalPoint&\\s+stan\\s*=\\s*PD\\[m->from\\(\\)\\]\\s*;', 'const struct LocalPoint* const stan__p = PointData_at(&PD, Observation_from(m));', 1],
+      ['PointData::const_iterator\\s+(\\w+)\\s*=\\s*PD\\.find\\(m->to\\(\\)\\)\\s*;', 'const struct LocalPoint* \\1 = PointData_find(&PD, Observation_to(m));', 0],
+      ['PD\\[m->to\\(\\)\\]', '(*PointData_at(&PD, Observation_to(m)))', 0],   # tolerated respelling (the text before 29733db)
+      ['PointData::const_iterator\\s+(\\w+)\\s*=\\s*PD\\.find\\(a->fs\\(\\)\\)\\s*;', 'const struct LocalPoint* \\1 = PointData_find(&PD, Angle_fs(a));', 1],
+      ['\\b(\\w+)\\s*==\\s*PD\\.end\\(\\)', '\\1 == NULL', 0],
+      ['\\b(\\w+)\\s*!=\\s*PD\\.end\\(\\)', '\\1 != NULL', 1],
+      ['\\(\\*(\\w+)\\)\\.second', '(*\\1)', 2],
+      ['if\\s*\\(\\s*const\\s+Angle\\*\\s+a\\s*=\\s*dynamic_cast<const\\s+Angle\\*>\\(m\\)\\s*\\)', 'const struct Observation* a = gv_dyn_Angle(m); if (a)', 1],
+      ['const\\s+LocalPoint\\*\\s+cilp\\b', 'const struct LocalPoint* cilp', 1],
+      ['const\\s+LocalPoint&\\s+(c2|cil)\\s*=\\s*([^;]*);', 'const struct LocalPoint* const \\1__p = &(\\2);', 2],
+      ['(?<!&)&\\s*(stan|c2)\\b(?!\\.)', '\\1__p', 1],
+      ['\\b(stan|c2)\\.(x|y|test_xy)\\(\\)', 'LocalPoint_\\2(\\1__p)', 5],
+      ['\\(\\*(\\w+)\\)\\.(x|y|test_xy)\\(\\)', 'LocalPoint_\\2(\\1)', 1],
+      ['\\bcilp->(x|y|test_xy)\\(\\)', 'LocalPoint_\\1(cilp)', 3],
       ['TestAbsTermVisitor\\s+testVisitor\\(b,\\s*tol_abs_\\);', 'struct TAV testVisitor; TAV_ctor(&testVisitor, &b, tol_abs_);', 1],
       ['testVisitor\\.setIndex\\(indm\\);', 'TAV_setIndex(&testVisitor, indm);', 1],
       ['testVisitor\\.setFromTo\\(stan,\\s*cil\\);', 'TAV_setFromTo(&testVisitor, stan__p, cil__p);', 1],
@@ -116,15 +131,12 @@ c('setIndex', 'h_setIndex', 'TAV_setIndex', replace=[], min_obligations=2)
 c('setFromTo', 'h_setFromTo', 'TAV_setFromTo', replace=[], backend='cvc5')
 c('check', 'h_check', 'TAV_check')
 for t in TYPES:
-    if t == 'Angle':
-        c('visit_Angle', 'h_visit_Angle', 'TAV_visit_Angle', replace=[])   # SAT portfolio, tagged operations, Vec_at_const inlined (bit-exact b)
-    else:
-        c('visit_' + t, 'h_visit_' + t, 'TAV_visit_' + t, backend='cvc5')
+    c('visit_' + t, 'h_visit_' + t, 'TAV_visit_' + t, backend='cvc5')
 SAMPLE = dict(tier='quick', level='bounded', timeout=200, min_obligations=20,
               bound='one concrete sample point (mk_vis under ABS_SAMPLE): every obligation of the check evaluated by constant propagation, SAT')
 c('setFromTo_sample', 'h_setFromTo', 'TAV_setFromTo', replace=[], defines=['ABS_SAMPLE=1', 'ABS_SAMPLE_NSQRT=0'], **SAMPLE)
 for t in TYPES:
-    if t != 'Angle':
+    if True:
         c('visit_%s_sample' % t, 'h_visit_' + t, 'TAV_visit_' + t, defines=['ABS_SAMPLE=1', 'ABS_SAMPLE_NSQRT=1'], **SAMPLE)
 c('test_abs_term', 'h_test_abs_term', 'LocalNetwork_test_abs_term', min_obligations=30, timeout=600, extra_flags=['--object-bits', '12'], defines=['ABS_VALUES=0'],
   replace=['Vec_at_const', 'TAV_setIndex', 'TAV_setFromTo', 'TAV_value'] + ['TAV_visit_' + t for t in TYPES])
@@ -134,8 +146,8 @@ c('remove_huge_abs_terms', 'h_remove_huge', 'LocalNetwork_remove_huge_abs_terms'
 import os
 if os.environ.get('EXCL'):
     import copy
-    EX = {'check': ['GV_EXCL_NONZERO_TERM'], 'visit_Angle': ['GV_EXCL_ANGLE_BS_ARM_LONGER'],
-          'test_abs_term': ['GV_EXCL_NONZERO_TERM', 'GV_EXCL_EMPTY_ID_PRESENT'], 'remove_huge_abs_terms': ['GV_EXCL_UNIT_WEIGHTS']}
+    EX = {'check': ['GV_EXCL_NONZERO_TERM'],
+          'test_abs_term': ['GV_EXCL_NONZERO_TERM'], 'remove_huge_abs_terms': ['GV_EXCL_UNIT_WEIGHTS']}
     for ch in list(checks):
         if ch['name'] in EX:
             d = copy.deepcopy(ch)
@@ -200,7 +212,8 @@ unit = {
         'Vec::operator()(Index) const is replaced by its contract MV_CONTRACT_Vec_at_const of units/matvec_index/matvec_spec.h (proved there): index within 1..dim is an obligation at every b(indm)',
         'acyclic-visitor dispatch Observation::accept(BaseVisitor*) is modelled by gv_accept: a 13-way switch on the dynamic type calling the extracted visit(T*) (the base list of AllObservationsVisitor and of TestAbsTermVisitor is checked by abs_pre.py)',
         'constructor of TestAbsTermVisitor is modelled by TAV_ctor (initialiser list checked verbatim by abs_pre.py); std::vector<Observation*> is modelled as (data, size) with operator[] asserting index < size, begin/end as data, data+size',
-        'std::map<PointID,LocalPoint>::operator[] is modelled by PointData_at over 3 points: a missing id is an obligation failure (the real operator[] inserts a default point)',
+        'std::map<PointID,LocalPoint> is modelled over 3 points: operator[] by PointData_at (a missing id is an obligation failure: the real operator[] inserts a default point), find()/end() by PointData_find (pointer to the mapped point / NULL; never modifies the map); dynamic_cast<const Angle*> by the type tag',
+        'ASSUMED contract of std::hypot (stub abs_hypot_d, which receives the four coordinates the two differences are formed from): a number >= 0',
         'in the two loop checks test_abs_term is the stub gvs_test_abs_term: ASSERTS the preconditions of the contract proved in check test_abs_term (index in 1..pocmer_, b unscaled, calls in order), returns a harness-chosen value for the ghost index and an arbitrary one otherwise, changes nothing else (frame proved in check test_abs_term)',
         'project_equations() inside huge_abs_terms() is the stub gvs_project_equations: leaves the (arbitrary, well-formed) revised observation list in place, sets the three validity flags and an arbitrary vybocujici_abscl_, and records that b now holds the HOMOGENISED right-hand side (prepareProjectEquations; checked by abs_pre.py)',
     ],
